@@ -633,6 +633,9 @@ class Emitter:
             if t == 'bool':
                 return '(%s).toNat' % s, head
             return s, head
+        if path[0] == 'Self' and getattr(self, 'uint_mode', False) and ('Uint::' + name) in self.fns and args:
+            # `Self::method(x, …)`: the method call `x.method(…)`
+            return self.mcall(('mcall', args[0], name, args[1:]), env, exp)
         key = '%s::%s' % (path[0] if isinstance(head, tuple) else head, name)
         if path[0] == 'Self' and self.self_name:
             key = '%s::%s' % (self.self_name, name)
@@ -1195,6 +1198,16 @@ def osub (w a b : Nat) : Nat × Bool := ((a + 2 ^ w - b) % 2 ^ w, decide (a < b)
 def omul (w a b : Nat) : Nat × Bool := ((a * b) % 2 ^ w, decide (2 ^ w ≤ a * b))
 /-- number of leading zero bits of a `w`-bit word -/
 def clz (w a : Nat) : Nat := w - Nat.log2 a - (if a = 0 then 0 else 1)
+/-- number of one bits (words of at most 128 bits) -/
+def popAux : Nat → Nat → Nat
+  | 0, _ => 0
+  | f + 1, x => x % 2 + popAux f (x / 2)
+def popcnt (a : Nat) : Nat := popAux 128 a
+/-- number of trailing zero bits of a `w`-bit word (`w` for zero) -/
+def ctzAux : Nat → Nat → Nat
+  | 0, _ => 0
+  | f + 1, x => if x % 2 = 1 then 0 else ctzAux f (x / 2) + 1
+def ctz (w a : Nat) : Nat := if a = 0 then w else ctzAux w a
 /-- iterate `step` (new state, continue?) at most `fuel` times, stopping when it says so -/
 def loop {σ : Type} (step : σ → σ × Bool) : Nat → σ → σ
   | 0, s => s
@@ -1289,7 +1302,10 @@ def lehmer_items(repo):
 def uint_items(repo):
     out = []
     for f, fn in (('lib.rs', 'masked'), ('add.rs', 'overflowing_add'), ('add.rs', 'overflowing_sub'),
-                  ('lib.rs', 'apply_mask'), ('bits.rs', 'overflowing_shl'), ('bits.rs', 'overflowing_shr')):
+                  ('lib.rs', 'apply_mask'), ('bits.rs', 'overflowing_shl'), ('bits.rs', 'overflowing_shr'),
+                  ('bits.rs', 'bit'), ('bits.rs', 'set_bit'), ('bits.rs', 'not'), ('bits.rs', 'leading_zeros'),
+                  ('bits.rs', 'leading_ones'), ('bits.rs', 'count_ones'), ('bits.rs', 'count_zeros'),
+                  ('bits.rs', 'bit_len'), ('bits.rs', 'byte_len')):
         out.append({'file': repo + '/src/' + f, 'fn': fn, 'lean': 'uint_' + fn, 'key': 'Uint::' + fn, 'self_ty': 'uint',
                     'uint': True, 'group': 'uint'})
     return out
